@@ -158,7 +158,10 @@ func doPosition(positionCommand string) {
 	if movesIdx == -1 {
 		parsePosition(positionCommand)
 	} else {
-		parsePosition(strings.TrimSpace(positionCommand[:movesIdx]))
+		if !parsePosition(strings.TrimSpace(positionCommand[:movesIdx])) {
+			// start position was rejected - the moves have nothing to be applied to
+			return
+		}
 
 		movesString := strings.TrimSpace(positionCommand[movesIdx+len(uMoves):])
 		moveStrings := strings.Split(movesString, " ")
@@ -389,15 +392,17 @@ func parseMoveString(moveStr string) (Move, error) {
 	return NewMove(from, to), nil
 }
 
-func parsePosition(positionWithoutMoves string) {
+// Returns false (and leaves the current position alone) when the position could not be set
+func parsePosition(positionWithoutMoves string) bool {
 	if strings.HasPrefix(positionWithoutMoves, uStartpos) {
 		posGen = NewGenerator()
 	} else {
 		newPosGen, err := NewGeneratorFromFen(positionWithoutMoves)
 		if err != nil {
 			fmt.Println("invalid FEN:", err)
-		} else {
-			posGen = newPosGen
+			return false
 		}
+		posGen = newPosGen
 	}
+	return true
 }
